@@ -163,7 +163,7 @@ theorem push_appends (ext : Ext) : ∀ (x : SVal) (b b' : B), rawOK x = true →
         exact ⟨a, Safe.of_takeRest (pushNone_takeRest c c' hc) hsc, _, d⟩
     | _ =>
       simp only [push, ctx_ok] at h
-      obtain ⟨a, lv, d, _⟩ := pushScalar_appends ext _ _ b' hwf h
+      obtain ⟨a, lv, d, _⟩ := pushScalar_appends ext _ _ b' hwf hs h
       exact ⟨a, lv, d⟩
   | .newtypeVariant _ i _ v, b, b', hok, hwf, hs, h => by
     cases b with
@@ -219,7 +219,7 @@ theorem push_appends (ext : Ext) : ∀ (x : SVal) (b b' : B), rawOK x = true →
       obtain ⟨rfl, _⟩ := setValidity_ok hw'.2.1 h1
       obtain ⟨l, hl, rfl⟩ := duplicateLast_ok h2
       rw [hw'.1.2.1] at hl; cases hl
-      obtain ⟨hel, ls, hdec, ho⟩ := pushByteElems_appends ext large bs el _ _ _ hw'.2.2 h3
+      obtain ⟨hel, ls, hdec, ho⟩ := pushByteElems_appends ext large bs el _ _ _ hw'.2.2 (by simpa [Safe] using hs) h3
       simp only at hel hdec ho
       subst ho
       have := list_step hwf true ls hel hdec
@@ -227,35 +227,35 @@ theorem push_appends (ext : Ext) : ∀ (x : SVal) (b b' : B), rawOK x = true →
       exact ⟨this.1, _, this.2⟩
     | _ =>
       simp only [push, ctx_ok] at h
-      obtain ⟨a, lv, d, _⟩ := pushScalar_appends ext _ _ b' hwf h
+      obtain ⟨a, lv, d, _⟩ := pushScalar_appends ext _ _ b' hwf hs h
       exact ⟨a, lv, d⟩
-  | .bool x, b, b', _, hwf, _, h => by
+  | .bool x, b, b', _, hwf, hs, h => by
     rw [push, ctx_ok] at h
-    obtain ⟨a, lv, d, _⟩ := pushScalar_appends ext _ _ b' hwf h
+    obtain ⟨a, lv, d, _⟩ := pushScalar_appends ext _ _ b' hwf hs h
     exact ⟨a, lv, d⟩
-  | .int t x, b, b', _, hwf, _, h => by
+  | .int t x, b, b', _, hwf, hs, h => by
     rw [push, ctx_ok] at h
-    obtain ⟨a, lv, d, _⟩ := pushScalar_appends ext _ _ b' hwf h
+    obtain ⟨a, lv, d, _⟩ := pushScalar_appends ext _ _ b' hwf hs h
     exact ⟨a, lv, d⟩
-  | .f32 x, b, b', _, hwf, _, h => by
+  | .f32 x, b, b', _, hwf, hs, h => by
     rw [push, ctx_ok] at h
-    obtain ⟨a, lv, d, _⟩ := pushScalar_appends ext _ _ b' hwf h
+    obtain ⟨a, lv, d, _⟩ := pushScalar_appends ext _ _ b' hwf hs h
     exact ⟨a, lv, d⟩
-  | .f64 x, b, b', _, hwf, _, h => by
+  | .f64 x, b, b', _, hwf, hs, h => by
     rw [push, ctx_ok] at h
-    obtain ⟨a, lv, d, _⟩ := pushScalar_appends ext _ _ b' hwf h
+    obtain ⟨a, lv, d, _⟩ := pushScalar_appends ext _ _ b' hwf hs h
     exact ⟨a, lv, d⟩
-  | .char x, b, b', _, hwf, _, h => by
+  | .char x, b, b', _, hwf, hs, h => by
     rw [push, ctx_ok] at h
-    obtain ⟨a, lv, d, _⟩ := pushScalar_appends ext _ _ b' hwf h
+    obtain ⟨a, lv, d, _⟩ := pushScalar_appends ext _ _ b' hwf hs h
     exact ⟨a, lv, d⟩
-  | .str x, b, b', _, hwf, _, h => by
+  | .str x, b, b', _, hwf, hs, h => by
     rw [push, ctx_ok] at h
-    obtain ⟨a, lv, d, _⟩ := pushScalar_appends ext _ _ b' hwf h
+    obtain ⟨a, lv, d, _⟩ := pushScalar_appends ext _ _ b' hwf hs h
     exact ⟨a, lv, d⟩
-  | .unitStruct x, b, b', _, hwf, _, h => by
+  | .unitStruct x, b, b', _, hwf, hs, h => by
     rw [push, ctx_ok] at h
-    obtain ⟨a, lv, d, _⟩ := pushScalar_appends ext _ _ b' hwf h
+    obtain ⟨a, lv, d, _⟩ := pushScalar_appends ext _ _ b' hwf hs h
     exact ⟨a, lv, d⟩
 
 theorem pushElems_appends (ext : Ext) : ∀ (xs : SVals), rawOKs xs = true →
